@@ -17,6 +17,7 @@ LEVEL = 'exploration'
 
 DATA = '/repo/docs/examples/data'
 TOL_LIN = 1e-7      # linear-algebra results (regressions, closed forms)
+TOL_ROOT = 1e-6     # bracketed root refinements (HK pore sizes); distributions are finite differences of these
 TOL_OPT = 5e-3      # results of SLSQP / bounded Brent searches (DFT, HK, DA exponent search, Henry fits)
 
 P_REPS = ru.PRESSURE_REPS
@@ -90,13 +91,13 @@ def entries(tier):
     E['psd_mesoporous(ads,slit)'] = (lambda i: pick(pgc.psd_mesoporous(i, branch='ads', pore_geometry='slit', thickness_model='Halsey'), 'pore_widths', 'pore_volumes'), TOL_LIN,
                                      dict(pore_widths='int', pore_volumes='ext'))
     for m in ('HK', 'HK-CY', 'RY'):
-        E[f'psd_microporous({m})'] = (lambda i, m=m: pick(pgc.psd_microporous(i, psd_model=m, p_limits=(None, 0.1)), 'pore_widths', 'pore_distribution', 'pore_volume_cumulative'), TOL_OPT,
+        E[f'psd_microporous({m})'] = (lambda i, m=m: pick(pgc.psd_microporous(i, psd_model=m, p_limits=(None, 0.1)), 'pore_widths', 'pore_distribution', 'pore_volume_cumulative'), TOL_ROOT,
                                       dict(pore_widths='int', pore_distribution='ext', pore_volume_cumulative='ext'))
     E['alpha_s'] = (lambda i: first(pgc.alpha_s(i, REF[0], t_limits=(0.4, 1.1))['results'], 'slope', 'area', 'corr_coef'), TOL_LIN, dict(slope='ext', area='ext', corr_coef='int'))
     E['initial_henry_slope'] = (lambda i: {'K': pgc.initial_henry_slope(i, max_adjrms=0.01)}, TOL_OPT, dict(K='henry'))
     E['initial_henry_virial'] = (lambda i: {'K': pgc.initial_henry_virial(i)}, TOL_OPT, dict(K='henry'))
     if tier == 'thorough':
-        E['psd_microporous(RY-CY,sphere)'] = (lambda i: pick(pgc.psd_microporous(i, psd_model='RY-CY', pore_geometry='sphere', p_limits=(None, 0.1)), 'pore_widths', 'pore_volume_cumulative'), TOL_OPT,
+        E['psd_microporous(RY-CY,sphere)'] = (lambda i: pick(pgc.psd_microporous(i, psd_model='RY-CY', pore_geometry='sphere', p_limits=(None, 0.1)), 'pore_widths', 'pore_volume_cumulative'), TOL_ROOT,
                                               dict(pore_widths='int', pore_volume_cumulative='ext'))
     heavy = {'psd_dft': (lambda i: pick(pgc.psd_dft(i, p_limits=(1e-6, 0.9)), 'pore_volume_cumulative', 'kernel_loading'), 0.1, dict(pore_volume_cumulative='ext', kernel_loading='ext'))}
     return E, heavy
